@@ -45,8 +45,10 @@ def shift_quantity(bins, shsh, z, unit):
 
 # ------------------------------------------------------------------ Gen -> code
 def variants(case, idx, rnd, n):
+    dual = len(case["ssh"]) == 2 and case["ssh"][1] == 2
     return [{"kind": ["c16", "c8"][(idx + j) % 2], "dask": rnd.random() < 0.2, "rate": rnd.randrange(len(sl.RATES)),
-             "start": rnd.random() < 0.6, "unit": rnd.randrange(len(FUNITS))} for j in range(n)]
+             "start": rnd.random() < 0.6, "unit": rnd.randrange(len(FUNITS)),
+             "cls": "DualPolarizationSignal" if dual and rnd.random() < 0.5 else "BasebandSignal"} for j in range(n)]
 
 
 def replay_case(tab, case, var):
@@ -54,11 +56,11 @@ def replay_case(tab, case, var):
     info = {"boundary_cleared": 0, "boundary_kept": 0}
     N, ssh, shsh = case["N"], tuple(case["ssh"]), tuple(case["shsh"])
     data, cols = sl.build_data(tab, N, ssh, False, KINDS[var["kind"]])
-    z = sl.make_signal(data, "BasebandSignal", sl.RATES[var["rate"]], EPOCH if var["start"] else None, var["dask"])
+    z = sl.make_signal(data, var.get("cls", "BasebandSignal"), sl.RATES[var["rate"]], EPOCH if var["start"] else None, var["dask"])
     df = shift_quantity([s / 4 for s in case["S"]], shsh, z, FUNITS[var["unit"]])
     tag = shape_tag(ssh, shsh)
-    what = "freq_shift(N=%d, sample shape %r, shift %s bins shape %r, %s%s)" % (
-        N, ssh, [s / 4 for s in case["S"]], shsh, var["kind"], ", dask" if var["dask"] else "")
+    what = "freq_shift(N=%d, sample shape %r, shift %s bins shape %r, %s %s%s)" % (
+        N, ssh, [s / 4 for s in case["S"]], shsh, var["kind"], var.get("cls", "BasebandSignal"), ", dask" if var["dask"] else "")
     m0 = sl.meta_of(z)
     try:
         y = pb.freq_shift(z, df)
